@@ -58,8 +58,586 @@ def visit (c : Cfg) (a : AS) (blk : List Call) : AS × Err :=
 def runT (c : Cfg) : AS → List (List Call) → AS × Err
   | a, [] => (a, .none)
   | a, b :: rest =>
-    match visit c a b with
-    | (a', .none) => runT c a' rest
-    | (a', e) => (a', e)
+    let r := visit c a b
+    if r.2 = .none then runT c r.1 rest else r
+
+end Scalibr.Walk
+
+namespace Scalibr.Walk
+
+/-! ### the machine -/
+
+theorem openedCount_append (a b : List Call) : openedCount (a ++ b) = openedCount a + openedCount b := by
+  simp [openedCount, List.filter_append]
+
+theorem openedCount_nil : openedCount [] = 0 := rfl
+
+theorem hits_add (ca : Option Nat) (x m1 m2 : Nat) :
+    hits ca x (m1 + m2) = (hits ca x m1 || hits ca (x + m1) m2) := by
+  cases ca with
+  | none => simp [hits]
+  | some k =>
+    simp only [hits]
+    rw [Bool.eq_iff_iff]
+    simp only [decide_eq_true_eq, Bool.or_eq_true]
+    omega
+
+theorem hits_zero (ca : Option Nat) (x : Nat) : hits ca x 0 = false := by
+  cases ca with
+  | none => rfl
+  | some k => simp only [hits, decide_eq_false_iff_not]; omega
+
+theorem hits_one (ca : Option Nat) (x : Nat) : hits ca x 1 = decide (ca = some (x + 1)) := by
+  cases ca with
+  | none => simp [hits]
+  | some k =>
+    simp only [hits]
+    rw [Bool.eq_iff_iff]
+    simp only [decide_eq_true_eq, Option.some.injEq]
+    omega
+
+theorem aBlock_nil (c : Cfg) (a : AS) : aBlock c a [] = a := by
+  unfold aBlock
+  simp [openedCount_nil, hits_zero]
+
+theorem aBlock_append (c : Cfg) (a : AS) (b1 b2 : List Call) :
+    aBlock c (aBlock c a b1) b2 = aBlock c a (b1 ++ b2) := by
+  unfold aBlock
+  simp [openedCount_append, hits_add, Nat.add_assoc, Bool.or_assoc]
+
+theorem aPro_ne (c : Cfg) (a : AS) : (aPro c a).2 ≠ some .none := by
+  unfold aPro; simp only []; split <;> (try split) <;> simp
+
+theorem runT_nil (c : Cfg) (a : AS) : runT c a [] = (a, .none) := rfl
+
+theorem runT_cons_err (c : Cfg) (a a1 : AS) (e : Err) (b : List Call) (T : List (List Call))
+    (h : aPro c a = (a1, some e)) : runT c a (b :: T) = (a1, e) := by
+  have hne := aPro_ne c a
+  rw [h] at hne
+  have : e ≠ .none := by intro h'; subst h'; exact hne rfl
+  simp [runT, visit, h, this]
+
+theorem runT_cons_ok (c : Cfg) (a a1 : AS) (b : List Call) (T : List (List Call))
+    (h : aPro c a = (a1, none)) : runT c a (b :: T) = runT c (aBlock c a1 b) T := by
+  simp [runT, visit, h]
+
+theorem runT_single (c : Cfg) (a : AS) (b : List Call) :
+    runT c a [b] = visit c a b := by
+  simp only [runT]
+  split
+  · rename_i h
+    rw [← h]
+  · rfl
+
+theorem runT_append (c : Cfg) : ∀ (T1 T2 : List (List Call)) (a : AS),
+    runT c a (T1 ++ T2) = (if (runT c a T1).2 = .none then runT c (runT c a T1).1 T2 else runT c a T1)
+  | [], T2, a => by simp [runT]
+  | b :: T1, T2, a => by
+    simp only [List.cons_append, runT]
+    by_cases h : (visit c a b).2 = .none
+    · simp only [h, if_true]
+      exact runT_append c T1 T2 _
+    · simp [h]
+
+end Scalibr.Walk
+
+namespace Scalibr.Walk
+
+/-! ### the atomic steps of the engine, seen through `abs` -/
+
+theorem prologue_abs (c : Cfg) (s : St) : aPro c (abs s) = (abs (prologue c s).1, (prologue c s).2) := by
+  unfold prologue aPro abs
+  simp only []
+  split <;> (try split) <;> rfl
+
+theorem popOnExit_abs (c : Cfg) (s : St) (p : Path) (e : Err) : abs (popOnExit c s p e).1 = abs s := by
+  unfold popOnExit; (repeat' split) <;> rfl
+
+theorem fserrCall_abs (c : Cfg) (he : c.errorOnFSErrors = false) (s : St) :
+    (abs (fserrCall c s).1, (fserrCall c s).2) = visit c (abs s) [] := by
+  unfold fserrCall visit
+  rw [prologue_abs]
+  generalize prologue c s = x
+  obtain ⟨s1, e1⟩ := x
+  cases e1 with
+  | some e => rfl
+  | none => simp [he, aBlock_nil]
+
+theorem runExtractor_abs (c : Cfg) (hx : NoExtractorPanic c) (f : Faults) (s : St) (e : Nat) (p : Path) (sz : Nat) :
+    abs (runExtractor c f s e p sz).1 = aBlock c (abs s) [⟨e, p, sz, !f.openFail p && !f.fileStatFail p⟩] := by
+  unfold runExtractor
+  by_cases h1 : f.openFail p = true
+  · simp [h1, abs, aBlock, openedCount, hits_zero]
+  · by_cases h2 : f.fileStatFail p = true
+    · simp [h1, h2, abs, aBlock, openedCount, hits_zero]
+    · simp only [h1, h2, hx e p]
+      simp only [Bool.false_eq_true, if_false]
+      have : ∀ s' : St, abs (if (c.extract e p).err = true then { s' with errs := s'.errs ++ [e] } else s') = abs s' := by
+        intro s'; split <;> rfl
+      split <;> simp [abs, aBlock, openedCount, hits_one] <;> split <;> split <;> simp_all
+
+/-- the loop over extractors makes exactly the attempts the specification lists for the file, never fails -/
+theorem extractLoop_nf (c : Cfg) (hn : NFCfg c) (f : Faults) (r : FileRec) :
+    ∀ (es : List Nat) (s : St) (chk : Bool), (chk = true → sizeOk c f r = true) →
+      (extractLoop c f r.path r.size s es chk).2 = none ∧
+      abs (extractLoop c f r.path r.size s es chk).1 = aBlock c (abs s)
+        (if sizeOk c f r then (es.filter fun e => c.required e r.path).map fun e => ⟨e, r.path, r.size, readable f r⟩ else []) := by
+  intro es
+  induction es with
+  | nil => intro s chk _; simp [extractLoop, aBlock_nil]
+  | cons e rest ih =>
+    intro s chk hchk
+    have heo := hn.1
+    simp only [extractLoop]
+    by_cases hreq : c.required e r.path = true
+    · simp only [hreq, if_true, List.filter_cons_of_pos]
+      have hr := runExtractor_abs c hn.2 f s e r.path r.size
+      have hpan := runExtractor_nopanic c hn.2 f s e r.path r.size
+      generalize runExtractor c f s e r.path r.size = x at hr hpan ⊢
+      obtain ⟨s1, pan⟩ := x
+      simp only [] at hpan hr
+      subst hpan
+      by_cases hcond : (decide (c.maxFileSize > 0) && !chk) = true
+      · simp only [hcond, if_true]
+        simp only [Bool.and_eq_true, decide_eq_true_eq, Bool.not_eq_true'] at hcond
+        by_cases hst : f.statFail r.path = true
+        · have : sizeOk c f r = false := by unfold sizeOk; simp [hcond.1, hst]
+          simp [hst, heo, this, aBlock_nil]
+        · by_cases hgt : r.size > c.maxFileSize
+          · have : sizeOk c f r = false := by unfold sizeOk; simp [hcond.1, hgt]
+            simp [hst, hgt, this, aBlock_nil]
+          · have hok : sizeOk c f r = true := by unfold sizeOk; simp [hst, hgt]
+            simp only [hst, hgt, Bool.false_eq_true, if_false]
+            have := ih s1 true (fun _ => hok)
+            refine ⟨this.1, ?_⟩
+            rw [this.2, hr, aBlock_append]
+            simp [hok, readable]
+      · simp only [hcond, Bool.false_eq_true, if_false]
+        have hok : sizeOk c f r = true := by
+          cases hck : chk with
+          | true => exact hchk hck
+          | false =>
+            simp only [hck, Bool.not_false, Bool.and_true, decide_eq_true_eq] at hcond
+            unfold sizeOk; simp [hcond]
+        have := ih s1 chk hchk
+        refine ⟨this.1, ?_⟩
+        rw [this.2, hr, aBlock_append]
+        simp [hok, readable]
+    · simp only [hreq, Bool.false_eq_true, if_false]
+      have := ih s chk hchk
+      simpa [List.filter_cons, hreq] using this
+
+/-- `handleFile` for a file, after the prologue: the attempts `mustOne` lists for a file that has been reached -/
+theorem handleLeaf_nf (c : Cfg) (hn : NFCfg c) (f : Faults) (G : List GiEntry) (s : St) (p : Path) (k : Kind) (sz : Nat)
+    (hg : c.useGitignore = true → s.gis = G) :
+    (handleLeaf c f s p k sz).2 = none ∧
+    abs (handleLeaf c f s p k sz).1 = aBlock c (abs s) (mustOne c f G ⟨p, k, sz, []⟩) := by
+  unfold handleLeaf mustOne reached fileEligible
+  simp only [List.length_nil, List.range_zero, List.all_nil, Bool.true_and, List.map_nil, List.append_nil]
+  rw [← gi_guard_congr c s.gis G (tokens p) false hg]
+  by_cases hk : (k = .special || (k = .symlink && !c.readSymlinks)) = true
+  · simp only [hk, if_true]
+    simp [aBlock_nil]
+  · simp only [hk, Bool.false_eq_true, if_false]
+    by_cases hgi : (c.useGitignore && stackMatch c s.gis (tokens p) false) = true
+    · simp only [hgi, if_true]
+      simp [aBlock_nil]
+    · simp only [hgi, Bool.false_eq_true, if_false]
+      have := extractLoop_nf c hn f ⟨p, k, sz, []⟩ (List.range c.nExt) s false (by simp)
+      simpa [hk, hgi] using this
+
+/-- the gitignore part of `handleFile` for a directory when errors are not fatal -/
+theorem pushGi_nf (c : Cfg) (he : c.errorOnFSErrors = false) (ho : DomainLaw c.giMatch) (f : Faults) (s : St) (p : Path)
+    (gi : Option PatSet) :
+    (pushGi c f s p gi).2 = none ∧ abs (pushGi c f s p gi).1 = abs s ∧
+    shouldSkipDir c (pushGi c f s p gi).1.gis p = excludedDir c s.gis p ∧
+    ((c.useGitignore = false ∧ (pushGi c f s p gi).1 = s) ∨
+     (c.useGitignore = true ∧ (pushGi c f s p gi).1.giDirs = s.giDirs ++ [p] ∧
+       ∃ x, (pushGi c f s p gi).1.gis = s.gis ++ [x] ∧
+         (excludedDir c s.gis p = false → x = giEntryOf f ⟨p, gi, 0⟩))) := by
+  unfold pushGi
+  cases hu : c.useGitignore with
+  | false =>
+    simp only [Bool.false_eq_true, if_false]
+    exact ⟨by trivial, by trivial, shouldSkipDir_eq_excluded c s.gis p, Or.inl ⟨by trivial, by trivial⟩⟩
+  | true =>
+    simp only [if_true]
+    by_cases h1 : shouldSkipDir c s.gis p = true
+    · simp only [h1, if_true]
+      refine ⟨by trivial, by trivial, ?_, Or.inr ⟨by trivial, by trivial, none, by trivial, ?_⟩⟩
+      · rw [shouldSkipDir_eq_excluded, excluded_push_none]
+      · intro hex; rw [shouldSkipDir_eq_excluded] at h1; rw [hex] at h1; cases h1
+    · simp only [h1, Bool.false_eq_true, if_false]
+      by_cases h2 : f.openFail (p ++ [".gitignore"]) = true
+      · simp only [h2, if_true, he, Bool.false_eq_true, if_false]
+        refine ⟨by trivial, by trivial, ?_, Or.inr ⟨by trivial, by trivial, none, by trivial, ?_⟩⟩
+        · rw [shouldSkipDir_eq_excluded, excluded_push_none]
+        · intro _; unfold giEntryOf; simp [h2]
+      · simp only [h2, Bool.false_eq_true, if_false]
+        refine ⟨by trivial, by trivial, ?_, Or.inr ⟨by trivial, by trivial, _, rfl, ?_⟩⟩
+        · rw [shouldSkipDir_eq_excluded, excluded_push_own c ho]
+        · intro _; unfold giEntryOf; simp [h2]
+
+/-- the deferred pop after a stack-neutral body: error passed on, abstract state untouched, stacks restored -/
+theorem pop_nf (c : Cfg) (s1 s2 s3 : St) (p : Path) (e : Err)
+    (hor : (c.useGitignore = false ∧ s2 = s1) ∨
+           (c.useGitignore = true ∧ s2.giDirs = s1.giDirs ++ [p] ∧ ∃ x, s2.gis = s1.gis ++ [x]))
+    (hst : SameStack s2 s3) :
+    (popOnExit c s3 p e).2 = e ∧ abs (popOnExit c s3 p e).1 = abs s3 := by
+  refine ⟨?_, popOnExit_abs c s3 p e⟩
+  rcases hor with ⟨hu, _⟩ | ⟨hu, hd, x, hg⟩
+  · rw [popOnExit_nogi c hu]
+  · exact (popOnExit_pushed c hu s1 s3 p e x (by rw [hst.1, hg]) (by rw [hst.2, hd])).2
+
+theorem trace_dir_cons (c : Cfg) (f : Faults) (G : List GiEntry) (p : Path) (gi : Option PatSet) (es : List (String × Node)) :
+    trace c f G p (.dir gi es) = [] ::
+      (if excludedDir c G p then []
+       else if f.openFail p then [[]]
+       else traceL c f (if c.useGitignore then G ++ [giEntryOf f ⟨p, gi, 0⟩] else G) p es 0) := by
+  simp only [trace]
+  split
+  · rfl
+  · split <;> rfl
+
+mutual
+theorem walkNode_trace (c : Cfg) (hn : NFCfg c) (hd : DomainLaw c.giMatch) (f : Faults) (G : List GiEntry) (p : Path) :
+    ∀ (n : Node) (s : St), (c.useGitignore = true → s.gis = G) → (∀ d ∈ s.giDirs, d.length < p.length) →
+      (abs (walkNode c f s p n).1, (walkNode c f s p n).2) = runT c (abs s) (trace c f G p n)
+  | .file k size, s, hg, _ => by
+    simp only [walkNode, trace]
+    have hp := prologue_abs c s
+    have hs := prologue_same c s
+    generalize prologue c s = x at hp hs ⊢
+    obtain ⟨s1, e1⟩ := x
+    simp only [] at hp hs
+    cases e1 with
+    | some e => rw [runT_cons_err c _ _ e _ _ hp]
+    | none =>
+      rw [runT_cons_ok c _ _ _ _ hp, runT_nil]
+      simp only []
+      have hl := handleLeaf_nf c hn f G s1 p k size (fun hu => by rw [hs.1]; exact hg hu)
+      generalize handleLeaf c f s1 p k size = y at hl ⊢
+      obtain ⟨s2, e2⟩ := y
+      simp only [] at hl
+      rw [hl.1, hl.2]
+      rfl
+  | .dir gi es, s, hg, hshort => by
+    have hx : NoExtractorPanic c := hn.2
+    rw [trace_dir_cons]
+    simp only [walkNode]
+    have hp := prologue_abs c s
+    have hs := prologue_same c s
+    generalize prologue c s = x at hp hs ⊢
+    obtain ⟨s1, e1⟩ := x
+    simp only [] at hp hs
+    have hshort1 : ∀ d ∈ s1.giDirs, d.length < p.length := by rw [hs.2]; exact hshort
+    cases e1 with
+    | some e =>
+      rw [runT_cons_err c _ _ e _ _ hp]
+      simp only []
+      rw [popOnExit_nopush c s1 p e hshort1]
+    | none =>
+      rw [runT_cons_ok c _ _ _ _ hp, aBlock_nil]
+      simp only []
+      have hexc : excludedDir c s1.gis p = excludedDir c G p :=
+        excluded_congr c _ _ p (fun hu => by rw [hs.1]; exact hg hu)
+      have hpg := pushGi_nf c hn.1 hd f s1 p gi
+      generalize pushGi c f s1 p gi = y at hpg ⊢
+      obtain ⟨s2, e2⟩ := y
+      obtain ⟨he2, habs2, hskip, hor⟩ := hpg
+      simp only [] at he2 habs2 hskip hor
+      subst he2
+      simp only []
+      rw [hskip, hexc, ← habs2]
+      have hor' : (c.useGitignore = false ∧ s2 = s1) ∨
+          (c.useGitignore = true ∧ s2.giDirs = s1.giDirs ++ [p] ∧ ∃ x, s2.gis = s1.gis ++ [x]) := by
+        rcases hor with h | ⟨hu, hd2, x, hx2, _⟩
+        · exact Or.inl h
+        · exact Or.inr ⟨hu, hd2, x, hx2⟩
+      by_cases hsk : excludedDir c G p = true
+      · simp only [hsk, if_true]
+        have hpop := pop_nf c s1 s2 s2 p .none hor' (SameStack.refl s2)
+        rw [hpop.1, hpop.2, runT_nil]
+      · simp only [hsk, Bool.false_eq_true, if_false]
+        have hexf : excludedDir c G p = false := by simpa using hsk
+        by_cases hop : f.openFail p = true
+        · simp only [hop, if_true]
+          have hf := fserrCall_abs c hn.1 s2
+          have hfs := (fserrCall_same c s2).1
+          generalize fserrCall c s2 = z at hf hfs ⊢
+          obtain ⟨s3, e3⟩ := z
+          simp only [] at hf
+          have hpop := pop_nf c s1 s2 s3 p e3 hor' hfs
+          rw [hpop.1, hpop.2, runT_single, ← hf]
+        · simp only [hop, Bool.false_eq_true, if_false]
+          have hshort2 : ∀ d ∈ s2.giDirs, d.length < p.length + 1 := by
+            intro d hdm
+            rcases hor with ⟨_, h2⟩ | ⟨_, hd2, _⟩
+            · subst h2; have := hshort1 d hdm; omega
+            · rw [hd2] at hdm
+              rcases List.mem_append.mp hdm with hdm | hdm
+              · have := hshort1 d hdm; omega
+              · simp at hdm; subst hdm; omega
+          have hw := walkEntries_trace c hn hd f (if c.useGitignore then G ++ [giEntryOf f ⟨p, gi, 0⟩] else G) p es 0 s2
+            (by
+              intro hu
+              rcases hor with ⟨hu', _⟩ | ⟨_, _, x, hx2, hxe⟩
+              · rw [hu] at hu'; cases hu'
+              · rw [hx2, hs.1, hg hu, hxe (by rw [hexc]; exact hexf)]; simp [hu])
+            hshort2
+          have hst := (walkEntries_stack c hx f p es 0 s2 hshort2).1
+          generalize walkEntries c f s2 p es 0 = z at hw hst ⊢
+          obtain ⟨s3, e3⟩ := z
+          simp only [] at hw
+          have hpop := pop_nf c s1 s2 s3 p e3 hor' hst
+          rw [hpop.1, hpop.2, ← hw]
+theorem walkEntries_trace (c : Cfg) (hn : NFCfg c) (hd : DomainLaw c.giMatch) (f : Faults) (G : List GiEntry) (p : Path) :
+    ∀ (es : List (String × Node)) (k : Nat) (s : St), (c.useGitignore = true → s.gis = G) →
+      (∀ d ∈ s.giDirs, d.length < p.length + 1) →
+      (abs (walkEntries c f s p es k).1, (walkEntries c f s p es k).2) = runT c (abs s) (traceL c f G p es k)
+  | [], k, s, _, _ => by
+    simp only [walkEntries, traceL]
+    by_cases hr : f.readEntryFail p k = true
+    · simp only [hr, if_true]
+      rw [runT_single]; exact fserrCall_abs c hn.1 s
+    · simp only [hr, Bool.false_eq_true, if_false]
+      rfl
+  | (name, n) :: rest, k, s, hg, hshort => by
+    simp only [walkEntries, traceL]
+    by_cases hr : f.readEntryFail p k = true
+    · simp only [hr, if_true]
+      rw [runT_single]; exact fserrCall_abs c hn.1 s
+    · simp only [hr, Bool.false_eq_true, if_false]
+      have hsh : ∀ d ∈ s.giDirs, d.length < (p ++ [name]).length := by
+        intro d hd; have := hshort d hd; simp; omega
+      have hw := walkNode_trace c hn hd f G (p ++ [name]) n s hg hsh
+      have hst := (walkNode_stack c hn.2 f (p ++ [name]) n s hsh).1
+      generalize walkNode c f s (p ++ [name]) n = z at hw hst ⊢
+      obtain ⟨s1, e1⟩ := z
+      simp only [] at hw
+      rw [runT_append, ← hw]
+      simp only []
+      by_cases he : e1 = .none
+      · subst he
+        simp only [ne_eq, not_true_eq_false, if_false, if_true]
+        exact walkEntries_trace c hn hd f G p rest (k+1) s1 (fun hu => by rw [hst.1]; exact hg hu)
+          (by rw [hst.2]; exact hshort)
+      · simp [he]
+end
+
+end Scalibr.Walk
+
+namespace Scalibr.Walk
+
+/-! ### whole scans -/
+
+theorem walkFrom_trace (c : Cfg) (hn : NFCfg c) (hd : DomainLaw c.giMatch) (f : Faults) (G : List GiEntry)
+    (root : Node) (p : Path) (s : St) (hg : c.useGitignore = true → s.gis = G) (hgd : s.giDirs = []) :
+    (abs (walkFrom c f s root p).1, (walkFrom c f s root p).2) = runT c (abs s)
+      (if f.statFail p then [[]] else match lookup root p with
+        | none => [[]]
+        | some n => trace c f G p n) := by
+  unfold walkFrom
+  by_cases hs : f.statFail p = true
+  · simp only [hs, if_true]
+    rw [runT_single]; exact fserrCall_abs c hn.1 s
+  · simp only [hs, Bool.false_eq_true, if_false]
+    cases hl : lookup root p with
+    | none => simp only []; rw [runT_single]; exact fserrCall_abs c hn.1 s
+    | some n => exact walkNode_trace c hn hd f G p n s hg (by rw [hgd]; simp)
+
+/-- between walks both gitignore stacks are empty -/
+def Clean (s : St) : Prop := s.gis = [] ∧ s.giDirs = []
+
+theorem walkRequested_trace (c : Cfg) (hn : NFCfg c) (hd : DomainLaw c.giMatch) (f : Faults) (root : Node) (p : Path)
+    (s : St) (hi : Clean s) :
+    (abs (walkRequested c f s root p).1, (walkRequested c f s root p).2) = runT c (abs s) (traceRequested c f root p) ∧
+    Clean (walkRequested c f s root p).1 := by
+  have heo := hn.1
+  unfold walkRequested traceRequested
+  by_cases hs : f.statFail p = true
+  · simp only [hs, if_true]
+    have := (fserrCall_same c s).1
+    exact ⟨by rw [runT_single]; exact fserrCall_abs c hn.1 s, this.1.trans hi.1, this.2.trans hi.2⟩
+  · simp only [hs, Bool.false_eq_true, if_false]
+    cases hl : lookup root p with
+    | none =>
+      simp only []
+      have := (fserrCall_same c s).1
+      exact ⟨by rw [runT_single]; exact fserrCall_abs c hn.1 s, this.1.trans hi.1, this.2.trans hi.2⟩
+    | some n =>
+      cases n with
+      | file k sz =>
+        simp only []
+        have hp := prologue_abs c s
+        have hps := prologue_same c s
+        generalize prologue c s = x at hp hps ⊢
+        obtain ⟨s1, e1⟩ := x
+        simp only [] at hp hps
+        cases e1 with
+        | some e =>
+          rw [runT_cons_err c _ _ e _ _ hp]
+          exact ⟨rfl, hps.1.trans hi.1, hps.2.trans hi.2⟩
+        | none =>
+          rw [runT_cons_ok c _ _ _ _ hp, runT_nil]
+          simp only []
+          have hl2 := handleLeaf_nf c hn f [] s1 p (statKind k) sz (fun _ => by rw [hps.1, hi.1])
+          have hls := (handleLeaf_same c hn.2 f s1 p (statKind k) sz).1
+          rw [mustOne_nogi] at hl2
+          generalize handleLeaf c f s1 p (statKind k) sz = y at hl2 hls ⊢
+          obtain ⟨s2, e2⟩ := y
+          simp only [] at hl2
+          rw [hl2.1, hl2.2]
+          exact ⟨rfl, (hls.1.trans hps.1).trans hi.1, (hls.2.trans hps.2).trans hi.2⟩
+      | dir gi es =>
+        simp only []
+        cases hu : c.useGitignore with
+        | true =>
+          simp only [if_true, heo, Bool.and_false, Bool.false_eq_true, if_false]
+          have hw := walkFrom_trace c hn hd f (parentGis f root p).1 root p { s with gis := (parentGis f root p).1 }
+            (fun _ => rfl) hi.2
+          have hst := (walkFrom_stack c hn.2 f root p { s with gis := (parentGis f root p).1 } hi.2).1
+          simp only [hs, Bool.false_eq_true, if_false, hl] at hw
+          generalize walkFrom c f { s with gis := (parentGis f root p).1 } root p = z at hw hst ⊢
+          obtain ⟨s3, e3⟩ := z
+          simp only [] at hw
+          exact ⟨hw, rfl, hst.2.trans hi.2⟩
+        | false =>
+          simp only [Bool.false_eq_true, if_false]
+          have hw := walkFrom_trace c hn hd f [] root p s (fun h => by rw [hu] at h; cases h) hi.2
+          have hst := (walkFrom_stack c hn.2 f root p s hi.2).1
+          simp only [hs, Bool.false_eq_true, if_false, hl] at hw
+          generalize walkFrom c f s root p = z at hw hst ⊢
+          obtain ⟨s3, e3⟩ := z
+          simp only [] at hw
+          exact ⟨hw, rfl, hst.2.trans hi.2⟩
+
+theorem walkPaths_trace (c : Cfg) (hn : NFCfg c) (hd : DomainLaw c.giMatch) (f : Faults) (root : Node) :
+    ∀ (ps : List Path) (s : St), Clean s →
+      (abs (walkPaths c f root s ps).1, (walkPaths c f root s ps).2) = runT c (abs s) (ps.flatMap (traceRequested c f root)) ∧
+      Clean (walkPaths c f root s ps).1
+  | [], s, hi => by simp only [walkPaths, List.flatMap_nil, runT_nil]; exact ⟨trivial, hi⟩
+  | p :: rest, s, hi => by
+    simp only [walkPaths, List.flatMap_cons]
+    have h1 := walkRequested_trace c hn hd f root p s hi
+    generalize walkRequested c f s root p = x at h1 ⊢
+    obtain ⟨s1, e1⟩ := x
+    simp only [] at h1
+    rw [runT_append, ← h1.1]
+    simp only []
+    by_cases he : e1 = .none
+    · subst he
+      simp only [ne_eq, not_true_eq_false, if_false, if_true]
+      exact walkPaths_trace c hn hd f root rest s1 h1.2
+    · simp only [ne_eq, he, not_false_eq_true, if_true, if_false]
+      exact ⟨trivial, h1.2⟩
+
+theorem runRoot_trace (c : Cfg) (hn : NFCfg c) (hd : DomainLaw c.giMatch) (f : Faults) (root : Node) (s : St) (hi : Clean s) :
+    (abs (runRoot c f s root).1, (runRoot c f s root).2) = runT c (abs s) (traceRoot c f root) ∧
+    Clean (runRoot c f s root).1 := by
+  unfold runRoot traceRoot
+  simp only []
+  have hi' : Clean { s with pkgs := [], errs := [], found := [] } := hi
+  by_cases hp : c.paths.isEmpty = true
+  · simp only [hp, if_true]
+    have := walkFrom_trace c hn hd f [] root [] { s with pkgs := [], errs := [], found := [] } (fun _ => hi'.1) hi'.2
+    have hst := (walkFrom_stack c hn.2 f root [] { s with pkgs := [], errs := [], found := [] } hi'.2).1
+    simp only [lookup] at this
+    exact ⟨this, hst.1.trans hi'.1, hst.2.trans hi'.2⟩
+  · simp only [hp, Bool.false_eq_true, if_false]
+    exact walkPaths_trace c hn hd f root c.paths _ hi'
+
+theorem runRoots_trace (c : Cfg) (hn : NFCfg c) (hd : DomainLaw c.giMatch) :
+    ∀ (roots : List (Node × Faults)) (s : St) (acc : List Pkg) (sts : List (Nat × Status)), Clean s →
+      (runRoots c s acc sts roots).err = (runT c (abs s) (traceScan c roots)).2 ∧
+      (runRoots c s acc sts roots).visited = (runT c (abs s) (traceScan c roots)).1.visited ∧
+      (runRoots c s acc sts roots).calls = (runT c (abs s) (traceScan c roots)).1.calls
+  | [], s, acc, sts, _ => by simp [runRoots, traceScan, runT_nil, abs]
+  | (r, f) :: rest, s, acc, sts, hi => by
+    simp only [runRoots, traceScan, List.flatMap_cons]
+    have h1 := runRoot_trace c hn hd f r s hi
+    generalize runRoot c f s r = x at h1 ⊢
+    obtain ⟨s1, e1⟩ := x
+    simp only [] at h1
+    rw [runT_append, ← h1.1]
+    simp only []
+    by_cases he : e1 = .none
+    · subst he
+      simp only [ne_eq, not_true_eq_false, if_false, if_true]
+      exact runRoots_trace c hn hd rest s1 _ _ h1.2
+    · simp [he, abs]
+
+/-- **Model A is the sequential machine over the specification's trace** (whole scan): when filesystem
+errors are not fatal and extractors do not panic, then for every forest, fault plan, option combination,
+inode limit and cancellation point the scan's error, its `AfterInodeVisited` count and its extraction
+attempts are those of `runT` on `traceScan`. -/
+theorem run_trace (c : Cfg) (hn : NFCfg c) (hd : DomainLaw c.giMatch) (roots : List (Node × Faults)) :
+    (run c roots).err = (runT c ⟨0, 0, 0, c.cancelBefore, []⟩ (traceScan c roots)).2 ∧
+    (run c roots).visited = (runT c ⟨0, 0, 0, c.cancelBefore, []⟩ (traceScan c roots)).1.visited ∧
+    (run c roots).calls = (runT c ⟨0, 0, 0, c.cancelBefore, []⟩ (traceScan c roots)).1.calls := by
+  unfold run
+  exact runRoots_trace c hn hd roots { cancelled := c.cancelBefore } [] [] ⟨rfl, rfl⟩
+
+end Scalibr.Walk
+
+namespace Scalibr.Walk
+
+/-! ### `visits` is the length of the trace -/
+
+mutual
+theorem trace_length (c : Cfg) (f : Faults) (G : List GiEntry) (p : Path) :
+    ∀ n : Node, (trace c f G p n).length = visits c f G p n
+  | .file k sz => by simp [trace, visits]
+  | .dir gi es => by
+    simp only [trace, visits]
+    split
+    · rfl
+    · split
+      · rfl
+      · simp only [List.length_cons]
+        rw [traceL_length c f _ p es 0]; omega
+theorem traceL_length (c : Cfg) (f : Faults) (G : List GiEntry) (p : Path) :
+    ∀ (es : List (String × Node)) (k : Nat), (traceL c f G p es k).length = visitsL c f G p es k
+  | [], k => by simp only [traceL, visitsL]; split <;> rfl
+  | (s, n) :: rest, k => by
+    simp only [traceL, visitsL]
+    split
+    · rfl
+    · rw [List.length_append, trace_length c f G (p ++ [s]) n, traceL_length c f G p rest (k+1)]
+end
+
+theorem length_flatMap_sum {α β} (l : List α) (g : α → List β) :
+    (l.flatMap g).length = (l.map fun a => (g a).length).sum := by
+  induction l with
+  | nil => rfl
+  | cons a as ih => simp [List.flatMap_cons, ih]
+
+theorem traceRequested_length (c : Cfg) (f : Faults) (root : Node) (p : Path) :
+    (traceRequested c f root p).length = visitsRequested c f root p := by
+  unfold traceRequested visitsRequested
+  split
+  · rfl
+  · split
+    · rfl
+    · exact trace_length c f _ p _
+    · rfl
+
+theorem traceRoot_length (c : Cfg) (f : Faults) (root : Node) :
+    (traceRoot c f root).length = visitsRoot c f root := by
+  unfold traceRoot visitsRoot
+  split
+  · split
+    · rfl
+    · exact trace_length c f [] [] root
+  · rw [length_flatMap_sum]
+    congr 1
+    exact List.map_congr_left (fun p _ => traceRequested_length c f root p)
+
+theorem traceScan_length (c : Cfg) (roots : List (Node × Faults)) :
+    (traceScan c roots).length = visitsScan c roots := by
+  unfold traceScan visitsScan
+  rw [length_flatMap_sum]
+  congr 1
+  exact List.map_congr_left (fun rf _ => traceRoot_length c rf.2 rf.1)
 
 end Scalibr.Walk
